@@ -126,13 +126,14 @@ Definition prim_eqb (p q : prim) : bool :=
   match p, q with PInt, PInt | PText, PText | PBool, PBool => true | _, _ => false end.
 
 Definition is_arr (t : ty) : bool := match t with TArr _ => true | _ => false end.
+Definition is_cplx (t : ty) : bool := match t with TPrim _ => false | _ => true end.   (* issubclass(sup, ComplexModelBase) *)
 
 Section Codec4.
   Variable L : leaf_codec.
   Variable C : xcfg4.
   Variable U : universe.
 
-  (** the four tests of _get_xsi_target on (declared class, newclass) *)
+  (** the tests of _get_xsi_target on (declared class, newclass) *)
   Definition same_origin (t : ty) (g : rtarget) : bool :=          (* sub is sup *)
     match g with
     | ROther => false
@@ -176,7 +177,7 @@ Section Codec4.
         match reg_get (classkey ns objtype) (x4_reg C) with
         | None => VFault                                             (* class key not registered *)
         | Some g =>
-            match x4_target C (same_origin t g) (is_arr t) (sub_of t g) (same_name t g) with
+            match x4_target C (same_origin t g) (is_arr t) (sub_of t g) (same_name t g) (is_cplx t) with
             | XReject => VFault
             | XDeclared => Ok t
             | XNew => match g with RTy t' => Ok t' | ROther => Crash OtherExn end   (* a class outside the universe: not modelled *)
@@ -340,4 +341,4 @@ Section Codec4.
 End Codec4.
 
 (** the table of the code before the repair: whatever the registry returns replaces the class *)
-Definition xsi_table_unguarded : xsi_table := fun _ _ _ _ => XNew.
+Definition xsi_table_unguarded : xsi_table := fun _ _ _ _ _ => XNew.
